@@ -564,6 +564,10 @@ func (w *Lit) End() Pos {
 }
 func (w *Quote) End() Pos {
 	end := w.Value.End()
+	if end.IsZero() && !w.TokPos.IsZero() {
+		// nothing is quoted
+		end = w.TokPos.shift(len(w.Tok))
+	}
 	if end.IsZero() || w.Tok == `\` {
 		return end
 	}
